@@ -121,7 +121,8 @@ impl<'a> DeclVisitor for Build<'a> {
     type Out = Option<SerPlan>;
     fn visit<D: Decl>(self, core: bool) -> Option<SerPlan> {
         let rng = self.rng;
-        let shape = if core { *rng.pick(&ShapeId::ALL) } else { *rng.pick(&ShapeId::BASIC) };
+        let _ = core;
+        let shape = *rng.pick(<D::Shapes as simcore::shapes::ShapeSet>::LIST);
         let fmt = *rng.pick(&Format::ALL);
         let aux = Aux::draw(rng);
         let k = arity(shape, &aux);
@@ -493,6 +494,9 @@ impl DeclVisitor for EnumDecl {
         };
         for fmt in Format::BASE {
             for shape in [ShapeId::Bare, ShapeId::RecOf, ShapeId::VecOf] {
+                if !<D::Shapes as simcore::shapes::ShapeSet>::LIST.contains(&shape) {
+                    continue;
+                }
                 let k = arity(shape, &aux);
                 for w in 0..valid.len() {
                     let raws: Vec<D::TwinInner> = (0..k).map(|j| valid[(w + j) % valid.len()].clone()).collect();
